@@ -1,6 +1,7 @@
 package main
 
 import (
+	"encoding/hex"
 	"fmt"
 	"math"
 	"sort"
@@ -138,7 +139,8 @@ type vmCfg struct {
 	Lang                   int
 }
 
-func allOn() vmCfg { return vmCfg{WoD: true, CoC: true, Fate: true, DC: true} }
+// an operation budget is always configured: without one, unbounded recursion (e.g. `&v = -v; v`) exhausts the Go stack, which the property does not cover
+func allOn() vmCfg { return vmCfg{WoD: true, CoC: true, Fate: true, DC: true, OpLimit: 200000} }
 
 func (c vmCfg) apply(vm *ds.Context) {
 	vm.Config.EnableDiceWoD = c.WoD
@@ -165,6 +167,8 @@ type runOut struct {
 	Str     string `json:"str,omitempty"`
 	Matched string `json:"matched"`
 	Rest    string `json:"rest"`
+	MHex    string `json:"mhex,omitempty"` // exact bytes of Matched / RestInput (JSON strings replace invalid UTF-8)
+	RHex    string `json:"rhex,omitempty"`
 	Detail  string `json:"detail"`
 	Hi2     string `json:"hi2,omitempty"`
 	Lo2     string `json:"lo2,omitempty"`
@@ -190,6 +194,7 @@ func runScript(vm *ds.Context, src string, wantDetail bool) (o runOut) {
 	o.Val = dumpValue(vm.Ret)
 	o.Str = vm.Ret.ToString()
 	o.Matched, o.Rest = vm.Matched, vm.RestInput
+	o.MHex, o.RHex = hex.EncodeToString([]byte(vm.Matched)), hex.EncodeToString([]byte(vm.RestInput))
 	if wantDetail {
 		o.Detail = vm.GetDetailText()
 	}
